@@ -16,7 +16,7 @@ RULE = ("each case is a stack of 1-8 sequential/nested residual layers with tau 
         "built from plain torch ops, plus tensor hooks on the branch output and the scale spy; branch kinds include constant, detached "
         "and IN-PLACE functions, single-element tensors, and half of the cases first use the same taus on bfloat16/float32 tensors "
         "(history). Non-trivial = tau != 1 or depth "
-        ">= 2; distinct = (structure, branch kinds, rank, tau bucket). tau may be a Python int; a fifth of the inputs are non-contiguous, a tenth of the upstream gradients expanded (stride 0).")
+        ">= 2; distinct = (structure, branch kinds, rank, tau bucket). tau may be a Python int; a fifth of the inputs are non-contiguous, a tenth of the upstream gradients expanded (stride 0). Two thirds of the cases re-evaluate split/f/add and residual_apply under torch.no_grad() / inference_mode (a quarter do so BEFORE the first training-mode call); one branch kind computes in float32 on the float64 stream (result dtype must follow ordinary type promotion).")
 ASSUMPTIONS = ["PyTorch autograd of the closed form is the true derivative", "gradcheck finite differences"]
 IMPORTS = ["unit_scaling.functional", "unit_scaling.scale"]
 REQUIRED_MONITORS = ["closed-form:outputs-compared", "closed-form:input-grads-compared", "hook:branch-output-grads", "spy:weights-checked",
